@@ -239,6 +239,7 @@ def _history_one(L, shape, seq):
             it.call(it.getattr(o, "skip_samples_for_next_generation"), [m0])
             pos = pos + m0
             tag = ">".join("%s%s" % (a, b or "") for a, b in seq) or "init"
+            kept = []
             # first sample (position 0) from the constructor is checked in the 'init' case with m0 before: check directly
             for j, (op, n) in enumerate(seq):
                 if op == "skip":
@@ -261,6 +262,11 @@ def _history_one(L, shape, seq):
                         conj.append((v.re == re).t)
                         conj.append((v.im == im).t)
                 goals.append(Goal("[%s] step %d: samples == model at pos*Ts" % (tag, j), sym.SBool(z3.And(conj))))
+                # frame: the blocks handed out by earlier requests are still the arrays they were
+                for (blk, items, jj) in kept:
+                    goals.append(Goal("[%s] step %d: the block returned at step %d is untouched" % (tag, j, jj),
+                                      blk is not h and blk.shape == np.shape(items) and all(a is b for a, b in zip(blk.flat, np.asarray(items, dtype=object).flat))))
+                kept.append((h, np.array(h, dtype=object, copy=True), j))
                 pos = pos + n
         return goals
     return verify(body, check_side=False, timeout_ms=120000)
@@ -373,6 +379,7 @@ def ob_float():
         phi, psi = g._phi_l.copy(), g._psi_l.copy()
         shp = () if shape is None else ((shape,) if isinstance(shape, int) else tuple(shape))
         pos = 1
+        held = []
         first = g.get_samples()
         if first.shape != shp + (1,):
             return {"constructor sample shape": list(first.shape)}
@@ -395,6 +402,14 @@ def ob_float():
             h = g.get_samples()
             if h.shape != shp + (n,):
                 return {"shape": list(h.shape), "expected": list(shp + (n,)), "pos": pos}
+            # frame: blocks handed out earlier keep their values (a caller assembling a stretch from blocks does not copy them)
+            for (blk, snap, at) in held:
+                if blk is h:
+                    continue
+                if blk.shape != snap.shape or not np.array_equal(blk, snap):
+                    return {"a block returned earlier was overwritten by a later request": {"block_from_position": int(at), "request": n}}
+            if n <= 4096:
+                held.append((h, h.copy(), pos))
             k = pos + np.arange(n)
             ref = _model(phi, psi, Fd, L, (k * Ts).reshape((1,) * (len(shp) + 1) + (n,)))
             tol = 2 * np.pi * Fd * Ts * float(k[-1]) * 1e-9 * math.sqrt(L) + 1e-9
@@ -405,6 +420,18 @@ def ob_float():
             if Fd == 0 and (not (np.abs(h - first[..., :1]).max() <= 1e-12)):
                 return {"Fd=0 not static": float(np.abs(h - first[..., :1]).max())}
             pos += n
+        # two consecutive requests of the same size: the first block must survive the second
+        g.generate_more_samples(6)
+        b1 = g.get_samples()
+        s1 = b1.copy()
+        g.generate_more_samples(6)
+        b2 = g.get_samples()
+        if not np.array_equal(b1, s1):
+            return {"equal-sized consecutive requests: the first block was overwritten": True}
+        kk = pos + 6 + np.arange(6)
+        ref2 = _model(phi, psi, Fd, L, (kk * Ts).reshape((1,) * (len(shp) + 1) + (6,)))
+        if (not (np.abs(b2 - ref2).max() <= 2 * np.pi * Fd * Ts * float(kk[-1]) * 1e-9 * math.sqrt(L) + 1e-9)):
+            return {"second of two equal-sized requests": float(np.abs(b2 - ref2).max())}
         # chunked vs one-shot from identical phases
         a = fg.JakesSampleGenerator(Fd, Ts, L, shape, np.random.RandomState(case["seed"]))
         b = fg.JakesSampleGenerator(Fd, Ts, L, shape, np.random.RandomState(case["seed"]))
@@ -413,7 +440,7 @@ def ob_float():
         parts = []
         for n in (7, 1, 30, 12):
             b.generate_more_samples(n)
-            parts.append(b.get_samples())
+            parts.append(b.get_samples())           # kept WITHOUT copying, as a caller would
         ch = np.concatenate(parts, axis=-1)
         if (not (np.abs(one - ch).max() <= 1e-9)):
             return {"chunked != one-shot": float(np.abs(one - ch).max())}
